@@ -24,6 +24,8 @@ ORACLE = 'C01'
 
 def gen(rng, tier, idx):
     wp = world.draw_world_params(rng)
+    if rng.random() < 0.06:
+        wp['gene_style'] = 'ensembl'      # versioned Ensembl ids in the query file, map_to_ensembl=True
     W = world.make_world(wp)
     mcfg = common.draw_mapping_cfg(rng, W)
     mcfg['min_markers'] = max(1, mcfg['min_markers'])
